@@ -158,6 +158,18 @@ func runTargeters(tt *testing.T, tape *simrt.Tape, keep bool) (out simrt.Outcome
 		sparse := kind == "json" && tape.Prob(1, 2)
 		ownHdr := func(i int) bool { return !sparse || i%3 != 1 }
 		ownBody := func(i int) bool { return !sparse || i%2 == 0 }
+		// lines longer than a buffered reader's 4096 bytes (a long query string): a line reader that takes such a
+		// line in fragments must not let another caller in between two of them
+		long := tape.Prob(1, 4)
+		c15URL := func(i int) string {
+			if long && i%3 != 2 {
+				return "http://t/" + strconv.Itoa(i) + "?pad=" + strings.Repeat(string(rune('a'+i%26)), 4090+7*i)
+			}
+			return "http://t/" + strconv.Itoa(i)
+		}
+		if long {
+			stats["probe.target-lines-longer-than-4096-bytes"]++
+		}
 		// default headers whose value slice has spare capacity (built by one append per -header flag), under a key
 		// that every target also sets
 		var defHdr http.Header
@@ -182,7 +194,7 @@ func runTargeters(tt *testing.T, tape *simrt.Tape, keep bool) (out simrt.Outcome
 		switch kind {
 		case "http":
 			for i := 0; i < ntargets; i++ {
-				fmt.Fprintf(&src, "%s http://t/%d\nX-Idx: %d\nX-Two: a%d\n", c15Method(i), i, i, i)
+				fmt.Fprintf(&src, "%s %s\nX-Idx: %d\nX-Two: a%d\n", c15Method(i), c15URL(i), i, i)
 				if bodies {
 					fmt.Fprintf(&src, "@%s\n", c15BodyFile(i)) // a body file, read while the targeter holds its lock
 				}
@@ -194,7 +206,7 @@ func runTargeters(tt *testing.T, tape *simrt.Tape, keep bool) (out simrt.Outcome
 			for i := 0; i < ntargets; i++ {
 				// in a sparse file not every object has a header or a body of its own (a decoder that reuses its
 				// scratch object hands such a target the fields of another)
-				fmt.Fprintf(&src, "{\"method\":%q,\"url\":\"http://t/%d\"", c15Method(i), i)
+				fmt.Fprintf(&src, "{\"method\":%q,\"url\":%q", c15Method(i), c15URL(i))
 				if ownHdr(i) {
 					fmt.Fprintf(&src, ",\"header\":{\"X-Idx\":[\"%d\"],\"X-Two\":[\"a%d\"]}", i, i)
 				}
@@ -208,11 +220,11 @@ func runTargeters(tt *testing.T, tape *simrt.Tape, keep bool) (out simrt.Outcome
 		case "static":
 			tgts := make([]vegeta.Target, ntargets)
 			for i := range tgts {
-				tgts[i] = vegeta.Target{Method: c15Method(i), URL: "http://t/" + strconv.Itoa(i), Header: http.Header{"X-Idx": {strconv.Itoa(i)}, "X-Two": {"a" + strconv.Itoa(i)}}}
+				tgts[i] = vegeta.Target{Method: c15Method(i), URL: c15URL(i), Header: http.Header{"X-Idx": {strconv.Itoa(i)}, "X-Two": {"a" + strconv.Itoa(i)}}}
 			}
 			tr = vegeta.NewStaticTargeter(tgts...)
 		}
-		w.Log.Addf("kind=%s targets=%d callers=%d calls=%d arms=%v chunk=%d parks=%d sparse=%v", kind, ntargets, ncallers, ncalls, arms, rd.chunk, rd.maxParks, sparse)
+		w.Log.Addf("kind=%s targets=%d callers=%d calls=%d arms=%v chunk=%d parks=%d sparse=%v long=%v", kind, ntargets, ncallers, ncalls, arms, rd.chunk, rd.maxParks, sparse, long)
 		sample = map[string]any{"targeter": kind, "targets": ntargets, "callers": ncallers, "calls": ncalls, "armed_breakpoints": len(arms), "source_chunk": rd.chunk}
 		w.Activate()
 		for i := 0; i < ncallers; i++ {
@@ -234,9 +246,10 @@ func runTargeters(tt *testing.T, tape *simrt.Tape, keep bool) (out simrt.Outcome
 			if len(f) != 5 {
 				return -2, "unparsable outcome " + blob
 			}
-			idx, err := strconv.Atoi(strings.TrimPrefix(f[2], "http://t/"))
-			if err != nil || idx < 0 || idx >= ntargets {
-				return -2, "a target that is not in the input: " + blob
+			idxText, _, _ := strings.Cut(strings.TrimPrefix(f[2], "http://t/"), "?")
+			idx, err := strconv.Atoi(idxText)
+			if err != nil || idx < 0 || idx >= ntargets || f[2] != c15URL(idx) {
+				return -2, "a target that is not in the input: " + trunc15(blob)
 			}
 			wantHdr := fmt.Sprintf("X-Idx=%d;X-Two=%sa%d", idx, wantTwo, idx) + sortedMore(wantMore)
 			if !ownHdr(idx) {
@@ -251,7 +264,7 @@ func runTargeters(tt *testing.T, tape *simrt.Tape, keep bool) (out simrt.Outcome
 				wantBody = "body-" + strconv.Itoa(idx)
 			}
 			if f[1] != c15Method(idx) || f[3] != wantHdr || f[4] != wantBody {
-				return -2, fmt.Sprintf("target %d is mixed with another: got %q", idx, blob)
+				return -2, fmt.Sprintf("target %d is mixed with another: got %q", idx, trunc15(blob))
 			}
 			return idx, ""
 		}
@@ -468,4 +481,12 @@ func c15BodyFile(i int) string {
 		os.WriteFile(p, []byte("body-"+strconv.Itoa(i)), 0o644)
 	}
 	return p
+}
+
+// trunc15 shortens an outcome that carries a padded URL.
+func trunc15(s string) string {
+	if len(s) > 300 {
+		return s[:140] + "..." + s[len(s)-140:]
+	}
+	return s
 }
